@@ -102,6 +102,7 @@ func MutexOp(c ssa.CallInstruction) (op string, path string, ok bool) {
 // Locks is the result of the must-hold analysis of one function.
 type Locks struct {
 	Fn     *ssa.Function
+	may    bool // union at merges: the set of mutexes held on SOME path
 	in     map[*ssa.BasicBlock]LockSet
 	Sites  []ssa.CallInstruction // every Lock/RLock call (not deferred)
 	Unlock []ssa.CallInstruction // every Unlock/RUnlock incl. deferred
@@ -109,8 +110,32 @@ type Locks struct {
 
 // AnalyzeLocks computes, for every point of fn, the set of mutexes that are held on every path reaching it.
 // `defer m.Unlock()` keeps the lock held until the function exits.
-func AnalyzeLocks(fn *ssa.Function) *Locks {
-	l := &Locks{Fn: fn, in: map[*ssa.BasicBlock]LockSet{}}
+func AnalyzeLocks(fn *ssa.Function) *Locks { return analyzeLocks(fn, false) }
+
+// AnalyzeLocksMay computes the may-hold sets: a mutex is listed at a point when it is held on at least one path reaching it.
+func AnalyzeLocksMay(fn *ssa.Function) *Locks { return analyzeLocks(fn, true) }
+
+func join(a, b LockSet) LockSet {
+	o := a.clone()
+	for k, vb := range b {
+		if va, ok := o[k]; ok {
+			va.Write = va.Write || vb.Write
+			for x := range vb.Sites {
+				va.Sites[x] = true
+			}
+		} else {
+			h := &Held{Write: vb.Write, Sites: map[ssa.Instruction]bool{}}
+			for x := range vb.Sites {
+				h.Sites[x] = true
+			}
+			o[k] = h
+		}
+	}
+	return o
+}
+
+func analyzeLocks(fn *ssa.Function, may bool) *Locks {
+	l := &Locks{Fn: fn, may: may, in: map[*ssa.BasicBlock]LockSet{}}
 	if len(fn.Blocks) == 0 {
 		return l
 	}
@@ -141,6 +166,8 @@ func AnalyzeLocks(fn *ssa.Function) *Locks {
 			var nw LockSet
 			if !seen {
 				nw = out.clone()
+			} else if l.may {
+				nw = join(old, out)
 			} else {
 				nw = meet(old, out)
 			}
